@@ -169,7 +169,7 @@ func matchExact(exp Val, o obs) bool {
 			return o.f == 0 // a zero; the specification leaves its sign open
 		}
 		return o.f == exp.Float()
-	case "rat", "huge":
+	case "rat", "huge", "tiny":
 		return o.f == exp.Float()
 	case "tok":
 		switch exp.T {
